@@ -117,7 +117,24 @@ func runRecoverOrder(c *Ctx, r *RuleRun) {
 	// comparators: closures func(a, b string) int created in recover or one of its helpers
 	n := 0
 	for _, host := range localFns(p, rec) {
-		for _, cf := range host.AnonFuncs {
+		cands := append([]*ssa.Function{}, host.AnonFuncs...)
+		// a named comparator handed over as a function value
+		eachInstr(host, func(ins ssa.Instruction) {
+			ci, ok := ins.(ssa.CallInstruction)
+			if !ok {
+				return
+			}
+			for _, arg := range ci.Common().Args {
+				v := arg
+				if ct, isCT := v.(*ssa.ChangeType); isCT {
+					v = ct.X
+				}
+				if g, isFn := v.(*ssa.Function); isFn && g.Pkg == rec.Pkg && len(g.Blocks) > 0 && g.Parent() == nil {
+					cands = append(cands, g)
+				}
+			}
+		})
+		for _, cf := range cands {
 			cf := cf
 			func() {
 				if len(cf.Params) != 2 || !resultIs(cf, types.Int) || !types.Identical(cf.Params[0].Type(), cf.Params[1].Type()) {
